@@ -76,6 +76,21 @@ class SuitEnvelope(SuitKeyValue):
 class SuitBasicEnvelopeOperationsMixin:
     """Basic operations over envelopes."""
 
+    @classmethod
+    def from_cbor(cls, cbstr: bytes):
+        """Restore SUIT representation from passed CBOR, too deeply nested data is an input error."""
+        try:
+            return super().from_cbor(cbstr)
+        except RecursionError:
+            raise ValueError("Unable to parse the envelope: the structure is nested too deeply")
+
+    def to_obj(self) -> dict:
+        """Dump SUIT representation to object, too deeply nested data is an input error."""
+        try:
+            return super().to_obj()
+        except RecursionError:
+            raise ValueError("Unable to dump the envelope: the structure is nested too deeply")
+
     def update_digest(self):
         """Update digest in the envelope."""
         alg = (
